@@ -62,7 +62,7 @@ type tiers struct {
 
 func tier(t string) tiers {
 	if t == "thorough" {
-		return tiers{Runs: 60000, Budget: 3000, MaxPhases: 600, Sweeps: 400}
+		return tiers{Runs: 150000, Budget: 3000, MaxPhases: 600, Sweeps: 1000}
 	}
 	return tiers{Runs: 4000, Budget: 1200, MaxPhases: 300, Sweeps: 24}
 }
